@@ -64,7 +64,7 @@ def RawVec.toVec [Inhabited K] (v : RawVec K) (n : Nat) : Vec K n := Vector.ofFn
 
 section
 variable [Add K] [Sub K] [Mul K] [Div K] [Neg K] [Zero K] [One K] [LT K] [DecidableLT K] [LE K] [DecidableLE K]
-variable [NatCast K] [DecidableEq K] [Inhabited K]
+variable [NatCast K] [BEq K] [Inhabited K]
 
 /-- rows of column `j` stored in `M`, ascending -/
 def colRows (M : RawMat K) (j : Nat) : List Nat := (List.range M.rows).filter fun i => M.stored i j
